@@ -35,6 +35,7 @@ def uniqueEntities : List Trig → List Nat → List Nat
 def enqueue (s : St) (a : Act) : St × List Cmd :=
   match a with
   | .nop => (s, [])
+  | .flushWorld => (s, [])
   | .marker m => (s, [.marker m])
   | .spawn =>
     let (e, s) := s.fresh
@@ -215,7 +216,10 @@ def doBodyActs (p : Prog) (s : St) (sys : Nat) (k : Kind) (i : Nat) (acc : List 
 def doExclActs (p : Prog) (s : St) (sys : Nat) (i : Nat) : St :=
   match p sys i s with
   | none => (s.emit (.bodyEnd sys)).push [.flush]
-  | some a => ({ (enqueue s a).1 with wq := (enqueue s a).1.wq ++ (enqueue s a).2 }).push [.exclActs sys (i + 1)]
+  -- an explicit `world.flush()` (also what every `World`-level sender does) applies what is queued so far — the run's own
+  -- cleanup first, which `run_initialized_system` queued before the body — and then the body goes on
+  | some a => ({ (enqueue s a).1 with wq := (enqueue s a).1.wq ++ (enqueue s a).2 }).push
+      (if a = Act.flushWorld then [Frame.flush, Frame.exclActs sys (i + 1)] else [Frame.exclActs sys (i + 1)])
 
 def doTopActs (h : Hist) (s : St) (t i : Nat) : St :=
   match h.act t i s with
